@@ -294,6 +294,9 @@ def opRrtPlay : P String := do
   let inter ← pKVNat "inter"
   expect "draws"
   let draws ← pDraws #[] c.kind.nreals
+  -- every iteration draws the same number k ≥ 1 of controls (numControlSamples_), counts ≤ 100000
+  let k := (draws.toList.head?.map (·.ctl.length)).getD 0
+  guardP (draws.all fun d => d.ctl.length == k && k ≥ 1 && k ≤ 50 && d.ctl.all (·.2 ≤ 100000))
   let valid := ControlSys.valid c eps boxes
   let step := ControlSys.step c.kind c.dt
   let P : Problem (Array F) (Array F) F :=
